@@ -3,7 +3,7 @@ import numpy as np
 
 import xobjects as xo
 from xv import bufmon
-from xv.typegen import kinds_in, shape_sig, is_static, plain, build, AVal
+from xv.typegen import kinds_in, shape_sig, is_static, plain, build, AVal, max_fit
 from xv.model import compare, exc_kind, nodes, get_path, set_path, ar_sig
 from xv.decoder import slot, plan_size
 from xv.props.common import new_case, build_root, flush_contracts, ctxs
@@ -107,7 +107,7 @@ def _poskind(path):
 
 
 def _long_string(cur, rng, w=None):
-    cap = slot(len(cur.encode("utf8")) + 1)  # data bytes incl. NUL fixed at creation
+    cap = max_fit(cur) + 1  # data bytes incl. NUL fixed at creation
     if rng.random() < 0.4:
         # multi-byte text: the character count (+1) would fit, the utf-8 bytes (+1) do not
         n = rng.randint(cap // 2, cap - 1)
